@@ -35,11 +35,23 @@ type mergeObs struct {
 }
 
 func mergeOnce(mc *mergeCase, order []int) (obs mergeObs, srcSchemas []*ast.Schema, err error) {
+	return mergeShared(mc, order, nil)
+}
+
+// mergeShared builds a gateway from the services in the given order; with shared != nil the parsed
+// schemas are taken from there (the same objects for several gateways: a schema reload)
+func mergeShared(mc *mergeCase, order []int, shared []*ast.Schema) (obs mergeObs, srcSchemas []*ast.Schema, err error) {
 	obs.Order = order
 	srcs := []*graphql.RemoteSchema{}
 	for _, i := range order {
 		s := mc.Services[i]
-		sch, lerr := graphql.LoadSchema(s.SDL)
+		var sch *ast.Schema
+		var lerr error
+		if shared != nil {
+			sch = shared[i]
+		} else {
+			sch, lerr = graphql.LoadSchema(s.SDL)
+		}
 		if lerr != nil {
 			return obs, nil, fmt.Errorf("service %s: %v", s.Name, lerr)
 		}
@@ -148,6 +160,42 @@ func runMerge(cfg *runCfg, prop string, injectPct int, oracle string) error {
 			}
 			obsTerms = append(obsTerms, fmt.Sprintf("{| ob_perm := [%s]%%nat; ob_cls := %s; ob_merged := %s; ob_urls := %s |}",
 				strings.Join(perm, "; "), c18Class(obs.Class), mt, ut))
+		}
+		if prop == "C03" && len(base) >= 3 {
+			// a schema reload: two gateways built from the same parsed schema objects, the second with
+			// another choice of services; the first is read only after the second was built
+			n := len(base)
+			shared := make([]*ast.Schema, n)
+			for i, s := range mc.Services {
+				shared[i], _ = graphql.LoadSchema(s.SDL)
+			}
+			first, second := []int{}, []int{}
+			for i := 0; i < n; i++ {
+				if i != n-1 {
+					first = append(first, i)
+				}
+				if i != n-2 {
+					second = append(second, i)
+				}
+			}
+			o1, _, _ := mergeShared(mc, first, shared)
+			o2, _, _ := mergeShared(mc, second, shared)
+			doc.Dist["reload-pairs"]++
+			for _, obs := range []mergeObs{o1, o2} {
+				observed = append(observed, obs)
+				perm := []string{}
+				for _, i := range obs.Order {
+					perm = append(perm, fmt.Sprint(i))
+				}
+				mt := "{| m_types := []; m_dirs := []; m_possible := []; m_implements := [] |}"
+				ut := "[]"
+				if obs.Class == "ok" {
+					mt = c.Merged(obs.schema)
+					ut = c.URLMap(obs.urls)
+				}
+				obsTerms = append(obsTerms, fmt.Sprintf("{| ob_perm := [%s]%%nat; ob_cls := %s; ob_merged := %s; ob_urls := %s |}",
+					strings.Join(perm, "; "), c18Class(obs.Class), mt, ut))
+			}
 		}
 		c.Printf("Definition sources%d := [%s].\nDefinition obs%d := [%s].\n", id, strings.Join(srcTerms, ";\n "), id, strings.Join(obsTerms, ";\n "))
 		or := strings.NewReplacer("sources", fmt.Sprintf("sources%d", id), "obs", fmt.Sprintf("obs%d", id), "internal", c.Schema(internal), "s🎉", c.S("🎉")).Replace(oracle)
